@@ -4,11 +4,25 @@ import BV.C20.DriverBloom
 import BV.C20.DriverPmt
 namespace BV.C20.Driver
 
-def handle : List String → String
+def handleOne : List String → String
   | op :: rest =>
     if op.startsWith "bloom" then DriverBloom.handle (op :: rest)
     else if op.startsWith "pmt" then DriverPmt.handle (op :: rest)
     else DriverGcs.handle (op :: rest)
   | [] => "bad-op"
+
+/-- split a token list at the `;;` separators -/
+def splitSubs : List String → List String → List (List String) → List (List String)
+  | [], cur, acc => (cur.reverse :: acc).reverse
+  | t :: ts, cur, acc => if t == ";;" then splitSubs ts [] (cur.reverse :: acc) else splitSubs ts (t :: cur) acc
+
+/-- `par <sub-line> ;; <sub-line> …`: independent cases (run concurrently by the harness) -/
+def handle : List String → String
+  | "par" :: rest =>
+    " ;; ".intercalate ((splitSubs rest [] []).map (fun sub =>
+      match sub with
+      | "C20" :: r => handleOne r
+      | _ => "bad-op"))
+  | l => handleOne l
 
 end BV.C20.Driver
